@@ -248,7 +248,10 @@ bool updateUnitMultiplier(const UnitsPtr &units, int direction, double &multipli
         if (units->isResolved()) {
             auto importSource = units->importSource();
             auto importedUnits = importSource->model()->units(units->importReference());
-            updateUnitMultiplier(importedUnits, 1, localMultiplier);
+            // The imported units may be resolved without being defined (one of its references leads nowhere).
+            if (!updateUnitMultiplier(importedUnits, 1, localMultiplier)) {
+                return false;
+            }
             multiplier += localMultiplier * direction;
         } else {
             return false;
